@@ -2,6 +2,7 @@ import A2Verif.Lemmas.C09Imd
 import A2Verif.Lemmas.C09Td0
 import A2Verif.Lemmas.C09Dot2mg
 import A2Verif.Lemmas.C09Woz
+import A2Verif.Lemmas.C09Meta
 /-!
 # Property C09 — image encode/decode is stable and self-identifying
 
@@ -113,6 +114,71 @@ example : pack 1 (List.replicate 256 0xE5) = some [5, 0, 1, 128, 0, 0xE5, 0xE5] 
 example : unpack 0 ([0, 0, 2] ++ [1, 60, 7, 9] ++ [0, 8, 1, 2, 3, 4, 5, 6, 7, 8]) =
     some ((List.replicate 60 [7, 9]).flatten ++ [1, 2, 3, 4, 5, 6, 7, 8]) := by decide +kernel
 
+/-- **C09, TD0 container clause** (*"serialising … and parsing the bytes back gives … the same geometry, identical sector
+contents and metadata"*, normal layer).  For every TD0 image as a2kit holds it — 8 header bytes, optional
+comment with a 6-byte time stamp whose notes are in the in-memory form (no NUL, no CR LF pair, at most 65535 bytes
+once encoded), tracks whose sector count byte equals the number of sector records and is not the end mark 0xFF,
+sector records that are empty for no-data sectors and carry a correct length word otherwise — `from_bytes` of
+what `to_bytes` wrote (before the external LZHUF stage) succeeds and returns the image itself with exactly the
+fields `to_bytes` recomputes (`canon`): comment flag, header CRC, comment CRC and length, track and sector CRC
+bytes.  In particular every header byte, the time stamp, the notes (LF ↔ NUL coding undone), every track and
+sector header and every sector record come back unchanged. -/
+theorem td0_fromBytes_toBytes (x : Image) (h : ImageWf x) : fromBytesNormal (toBytesNormal x) = some (canon x) :=
+  A2Verif.Lemmas.C09Td0.td0_fromBytes_toBytes x h
+
+/-- **C09, fixpoint clause for TD0**: the object after `to_bytes`, and the re-parsed image, serialise to the
+same bytes again (for every image, well-formed or not). -/
+theorem td0_reserialize (x : Image) : toBytesNormal (canon x) = toBytesNormal x :=
+  td0_toBytes_canon x
+
+theorem td0_reserialize_reparsed (x : Image) (h : ImageWf x) :
+    (fromBytesNormal (toBytesNormal x)).map toBytesNormal = some (toBytesNormal x) := by
+  rw [td0_fromBytes_toBytes x h]
+  simp [td0_toBytes_canon]
+
+/-- **C09, metadata clause for the TD0 notes**: notes without NUL and without CR LF pairs are read back
+exactly after the LF → NUL coding of `to_bytes` and the NUL → LF, CR LF → LF decoding of `from_bytes`. -/
+theorem td0_notes_roundtrip (t : List Nat) (h0 : ∀ b ∈ t, b ≠ 0) (hc : noCRLF t = true) :
+    decodeText (encodeText t) = t := decode_encode t h0 hc
+
+/-- what `Sector::pack` builds satisfies the record hypothesis of the container theorem -/
+theorem td0_pack_wellformed (shift : Nat) (hs : shift ≤ 6) (dat rec : List Nat) (h : pack shift dat = some rec)
+    (c hd i crc : Nat) :
+    SectorWf { cyl := c, head := hd, id := i, shift := shift, flags := 0, crc := crc, data := rec } :=
+  pack_sectorWf shift hs dat rec h c hd i crc
+
+/-- a one-track image with a two-line comment, a uniform sector and a no-data sector -/
+def exTd0 : Image where
+  hdr := [0, 0, 0x15, 0, 1, 0, 0, 1]
+  hcrc := [0, 0]
+  comment := some { crc := [0, 0], len := [0, 0], stamp := [100, 0, 1, 0, 0, 0], text := [97, 10, 98] }
+  tracks := [{ nsec := 2, cyl := 0, head := 0, crc := 0, sectors :=
+    [{ cyl := 0, head := 0, id := 1, shift := 0, flags := 0, crc := 0, data := [5, 0, 1, 64, 0, 0xE5, 0xE5] },
+     { cyl := 0, head := 0, id := 2, shift := 0, flags := 0x20, crc := 0, data := [] }] }]
+
+/-- the executable model on the example: the comment flag is set, the newline is stored as NUL, the re-parse is `canon` -/
+example : (toBytesNormal exTd0).take 2 = [84, 68] ∧ (toBytesNormal exTd0)[7]? = some 0x80 ∧
+    ((toBytesNormal exTd0).drop 22).take 3 = [97, 0, 98] ∧
+    fromBytesNormal (toBytesNormal exTd0) = some (canon exTd0) := by decide +kernel
+
+/-- non-vacuity of the hypothesis of `td0_fromBytes_toBytes` -/
+example : ImageWf exTd0 := by
+  refine ⟨by decide, ?_, ?_⟩
+  · intro t ht
+    have : t = exTd0.tracks.head (by decide) := by simpa [exTd0] using ht
+    subst this
+    refine ⟨rfl, by decide, ?_⟩
+    intro s hs
+    simp only [exTd0, List.head_cons, List.mem_cons, List.not_mem_nil, or_false] at hs
+    rcases hs with rfl | rfl
+    · exact Or.inr ⟨by decide, 5, 0, [1, 64, 0, 0xE5, 0xE5], rfl, by decide⟩
+    · exact Or.inl ⟨by decide, rfl⟩
+  · intro c hc
+    have : c = { crc := [0, 0], len := [0, 0], stamp := [100, 0, 1, 0, 0, 0], text := [97, 10, 98] } := by
+      simpa [exTd0] using hc.symm
+    subst this
+    exact ⟨by decide, by decide, by decide, by decide⟩
+
 /-- the constants of `td0::crc16` as found in the source now: polynomial 0xA097, MSB first, 8 bits per byte -/
 theorem td0_crc16_params :
     A2Verif.Gen.Td0.CRC16_POLY = 0xA097 ∧ A2Verif.Gen.Td0.CRC16_TOPBIT = 0x8000 ∧
@@ -188,6 +254,76 @@ offset 8 are the little-endian table-free CRC-32 of everything after byte 12. -/
 theorem woz_toBytes_crc (x : Image) :
     toBytes x = some (x.magic ++ le32 (crc32Bitwise 0 (body x)) ++ body x) := by
   simp only [toBytes, woz_crc32_correct]
+
+/-- **C09, WOZ payload clause.**  After the walk, the chunk buffers handed to the per-chunk parsers
+(`buf[ptr..end]`) are exactly the chunks that were written: id, size and every payload byte, for the known ids, in
+file order, with the offsets they were written to. -/
+theorem woz_readChunks (hdr : List Nat) (hh : hdr.length = 12) (cs : List Chunk)
+    (hall : ∀ c ∈ cs, c.id < 4294967296 ∧ c.payload.length < 4294967296) :
+    readChunks (hdr ++ flat cs) = withPtrs 12 cs :=
+  readChunks_chunks hdr hh cs hall
+
+/-- **C09, WOZ2 object clause, creator layout** (*"parsing the bytes back gives … identical sector contents and
+metadata"*).  For every WOZ2 object as a2kit holds it (`Woz2Wf`: INFO 60 and TMAP 160 payload bytes, 160 TRK
+entries, a bit buffer of whole blocks whose length the TRKS size field states, optional META text and WRIT
+chunk, supported disk type/sides, no flux) with the standard track-bits offset, `to_bytes` does not panic, leaves
+the object unchanged, and `from_bytes` of the bytes returns the same object: all 68 INFO bytes, the
+track map, every TRK entry, every bit of every track, the META text, the WRIT chunk, and offset 1536. -/
+theorem woz2_fromBytes_toBytes (x : Woz2) (h : Woz2Wf x) (ho : x.off = 1536) :
+    ∃ b, toBytes2 x = some (b, x) ∧ fromBytes2 b = some x := by
+  refine ⟨x.magic ++ le32 (crc32Bitwise 0 (body2 x)) ++ body2 x, ?_, woz2_fromBytes_body x h ho _⟩
+  simp only [toBytes2, rebase_std x ho, woz_crc32_correct]
+
+/-- **C09, WOZ2 object clause, loaded file with another chunk layout** (DESIGN §9 item 27, after the repair).
+If the track bits were found at any block-aligned offset, `to_bytes` re-bases the TRK entries and sets the
+offset to 1536 (`y`); the bytes it returns parse back to exactly that object; the object stays consistent:
+a second `to_bytes` on the same object returns the same bytes and leaves it unchanged. -/
+theorem woz2_loaded_rebase (x : Woz2) (h : Woz2Wf x) (hoff : x.off % 512 = 0) :
+    ∃ y b, toBytes2 x = some (b, y) ∧ y.off = 1536 ∧ Woz2Wf y ∧ fromBytes2 b = some y ∧
+      toBytes2 y = some (b, y) := by
+  obtain ⟨y, hr, hy⟩ := rebase_some x hoff
+  have hwy := rebase_wf x y h hr
+  obtain ⟨b, hb, hfb⟩ := woz2_fromBytes_toBytes y hwy hy
+  exact ⟨y, b, by rw [toBytes2_of_rebase x y hr hy]; exact hb, hy, hwy, hfb, hb⟩
+
+/-- … and every track keeps its bytes: the range of `trks.bits` a TRK entry addresses is the same before and
+after the re-basing (so every sector reads the same from the object after `to_bytes`). -/
+theorem woz2_rebase_keeps_tracks (x y : Woz2) (hr : rebase x = some y) (t : Trk)
+    (hge : t.start ≥ x.off / 512) (hfit : t.start + 3 - x.off / 512 < 65536) :
+    bitsRange y (if t.start ≥ x.off / 512 then { t with start := (t.start + 3 - x.off / 512) % 65536 } else t) =
+      bitsRange x t :=
+  bitsRange_rebase x y hr t hge hfit
+
+/-- a miniature WOZ2 object: one used track of one block, META text, loaded with the bits one block later than
+the creator would put them (offset 2048, TRK start 4) -/
+def exWoz2 : Woz2 where
+  magic := [0x57, 0x4F, 0x5A, 0x32, 0xFF, 0x0A, 0x0D, 0x0A]
+  info := chunkBytes ⟨A2Verif.Gen.C09Const.INFO_ID, [2, 1, 0, 0, 0] ++ List.replicate 32 0x20 ++ [1, 1, 32] ++ List.replicate 20 0⟩
+  tmap := chunkBytes ⟨A2Verif.Gen.C09Const.TMAP_ID, List.replicate 160 0xFF⟩
+  trksSize := le32 (1280 + 512)
+  trks := ⟨4, 1, [0, 16, 0, 0]⟩ :: List.replicate 159 ⟨0, 0, [0, 0, 0, 0]⟩
+  bits := List.replicate 512 0xAA
+  metaTxt := some [116, 9, 120, 10]
+  writ := none
+  off := 2048
+
+example : Woz2Wf exWoz2 := by
+  refine ⟨by decide +kernel, ⟨_, rfl, by decide +kernel⟩, ⟨_, rfl, by decide +kernel⟩, by decide +kernel, by decide +kernel,
+    by decide +kernel, by decide +kernel, by decide +kernel, ?_, ?_, by decide +kernel, by decide +kernel⟩
+  · intro p hp
+    have hm : exWoz2.metaTxt = some [116, 9, 120, 10] := rfl
+    rw [hm] at hp
+    cases hp
+    decide
+  · intro w hw
+    have hn : exWoz2.writ = none := rfl
+    rw [hn] at hw
+    cases hw
+
+/-- the executable model on the example: first `to_bytes` re-bases (start 4 → 3, offset 1536), the bytes parse
+back to that object, the second `to_bytes` is identical -/
+example : (toBytes2 exWoz2).map (fun p => (p.2.off, p.2.trks.head?.map (·.start), fromBytes2 p.1 == some p.2,
+    (toBytes2 p.2).map (·.1) == some p.1)) = some (1536, some 3, true, true) := by decide +kernel
 
 /-- a2kit's WOZ2 layout in miniature: the walk over the serialised image finds INFO, TMAP, TRKS, META -/
 def exWoz : Image where
@@ -339,5 +475,62 @@ example : exHdr.wf ∧ rd32 exHdr.imgFmt ≤ 2 ∧ exImg.data.length = rd32 exHd
   decide +kernel
 
 end dot2mg
+
+/-! ## Metadata interface: what is written is what is read back -/
+section metadata
+open A2Verif.Model.C09Meta A2Verif.Lemmas.C09Meta
+
+/-- **C09, metadata clause** (*"metadata written through the metadata interface is what is read back afterwards"*).
+For every table of key paths whose fixed-width text fields are space padded, every state, key path and value:
+if `put_metadata` stores the value (neither refused nor skipped as read-only) then `get_metadata` shows, under the
+same key path, the value in its canonical spelling — hex text in lower case, fixed-width text without trailing
+white space, TD0 notes with CR LF taken as LF, every other text unchanged.
+`_partial`: the key tables (`table`) are a hand transcription (tied by the `metaput` correspondence, not generated),
+and the pattern constraints and deletion rule of the standard WOZ2 META keys are not modelled. -/
+theorem meta_put_get_partial (tbl : List Field)
+    (hpads : ∀ f ∈ tbl, ∀ n pad, f.kind = .buf n pad → pad = 0x20)
+    (st st' : State) (key : List String) (val : List Nat) (f : Field)
+    (hf : findField tbl key = some f) (hp : put tbl st key val = .stored st') :
+    C09Meta.get tbl st' key = some (expected f.kind val) := by
+  have hmem : f ∈ tbl := List.mem_of_find?_eq_some hf
+  simp only [put, hf] at hp
+  by_cases hro : f.kind = .readOnly
+  · rw [if_pos hro] at hp; cases hp
+  · rw [if_neg hro] at hp
+    cases ha : accept f.kind val with
+    | none => simp [ha] at hp
+    | some raw =>
+      simp only [ha, PutResult.stored.injEq] at hp
+      subst hp
+      simp only [C09Meta.get, hf, lookup_store_same, Option.map]
+      rw [accept_render f.kind val raw (hpads f hmem) ha]
+
+/-- … and nothing else changes: a field stored under another path reads as before -/
+theorem meta_put_frame (tbl : List Field) (st st' : State) (key key2 : List String) (val : List Nat) (f g : Field)
+    (hf : findField tbl key = some f) (hg : findField tbl key2 = some g) (hne : g.path ≠ f.path)
+    (hp : put tbl st key val = .stored st') :
+    C09Meta.get tbl st' key2 = C09Meta.get tbl st key2 := by
+  simp only [put, hf] at hp
+  by_cases hro : f.kind = .readOnly
+  · rw [if_pos hro] at hp; cases hp
+  · rw [if_neg hro] at hp
+    cases ha : accept f.kind val with
+    | none => simp [ha] at hp
+    | some raw =>
+      simp only [ha, PutResult.stored.injEq] at hp
+      subst hp
+      simp only [C09Meta.get, hg, lookup_store_other st f.path g.path raw hne]
+
+/-- non-vacuity on the level of one field: upper-case hex `8A` is accepted for a one-byte field and shown as `8a`;
+a creator string is stored space padded to 32 bytes and shown without the padding; a NUL in TD0 notes is refused
+and CR LF is taken as LF; `02` is not an allowed spelling for a 0/1 flag -/
+example : accept (.hex 1) [56, 65] = some [0x8A] ∧ render (.hex 1) [0x8A] = [56, 97] ∧ expected (.hex 1) [56, 65] = [56, 97] ∧
+    (accept (.buf 32 0x20) [109, 101, 32]).map List.length = some 32 ∧
+    (accept (.buf 32 0x20) [109, 101, 32]).map (render (.buf 32 0x20)) = some [109, 101] ∧
+    accept .td0Notes [97, 0] = none ∧ accept .td0Notes [97, 13, 13, 10, 98] = some [97, 10, 98] ∧
+    accept (.hexOneOf 1 [[48, 48], [48, 49]]) [48, 50] = none ∧ accept .hardware [255, 1].reverse = none := by
+  decide +kernel
+
+end metadata
 
 end A2Verif.C09
